@@ -671,16 +671,21 @@ def u_to_euler(U_matrix):
     if CHECKS.activated: checks._check_rotation_matrix(U)
 
     tol = 1e-8
-    PHI = np.arccos(U[2, 2])
-    if np.abs(PHI)<tol:
+    PHI = np.arccos(np.clip(U[2, 2], -1, 1))
+    # sin(PHI) as seen in the third column and in the third row of U
+    s_col = np.sqrt(U[0, 2]**2 + U[1, 2]**2)
+    s_row = np.sqrt(U[2, 0]**2 + U[2, 1]**2)
+    if min(s_col, s_row)<tol and U[2, 2]>0:
         phi1 = _arctan2(-U[0, 1], U[0, 0])
         phi2 = 0
-    elif np.abs(PHI-np.pi)<tol:
+    elif min(s_col, s_row)<tol:
         phi1 = _arctan2(U[0, 1], U[0, 0])
         phi2 = 0
     else:
-        phi1 = _arctan2(U[0, 2], -U[1, 2])
-        phi2 = _arctan2(U[2, 0], U[2, 1])
+        # scale to unit length so that the absolute tolerance in _arctan2
+        # does not erase the small entries found close to gimbal lock
+        phi1 = _arctan2(U[0, 2]/s_col, -U[1, 2]/s_col)
+        phi2 = _arctan2(U[2, 0]/s_row, U[2, 1]/s_row)
             
     if phi1<0:
         phi1 = phi1 + 2*np.pi
